@@ -20,7 +20,7 @@ def build(r, name, generics=None):
     for i in range(n):
         kind = r.choice(["unit", "tuple", "tuple", "tuple", "named"])
         same = r.random() < 0.35
-        fields = gen.rand_fields(r, kind, nmax=3, generics=generics, types=FIELD_TYPES, distinct_types=not same)
+        fields = gen.rand_fields(r, kind, nmax=(5 if r.random() < 0.1 else 3), generics=generics, types=FIELD_TYPES, distinct_types=not same)
         if kind == "tuple" and same and len(fields) >= 2:
             for f in fields[1:]:
                 f.ty = fields[0].ty
